@@ -104,7 +104,7 @@ package app
 //@ func (*App).Close
 //@ property C14 C20
 //@ requires [closers-non-nil] forall(k, int, implies(0 <= k && k < len(s.CloserComponents), s.CloserComponents[k] != nil))
-//@ assigns Forks, CloseCalls, CloseTarget, forkargs(m)
+//@ assigns Forks, Joined, CloseCalls, CloseTarget, forkargs(m)
 //@ let n = len(s.CloserComponents)
 //@ let f0 = Forks
 //@ ensures [one-thread-per-closer] Forks == f0 + n
@@ -113,3 +113,31 @@ package app
 //@ loop 1 invariant [spawned-so-far] Forks == f0 + _done && 0 <= _done && _done <= n && wg.Forked == _done && wg.Added == n
 //@ loop 1 invariant [each-closer-own-thread] forall(k, int, implies(f0 <= k && k < Forks, forkarg(k, m) == s.CloserComponents[k - f0]))
 //@ loop 1 invariant [not-yet-run] CloseCalls == old(CloseCalls) && CloseTarget == old(CloseTarget)
+
+// ---- Run (C09, C13): options, wiring of the built-in processors, then run() ------------------------------------------
+// Options only configure the App (A-CALLBACK): they do not start anything, so the start-up ghost state is untouched.
+//@ functype SettingOption
+//@ assigns everything
+//@ ensures [options-only-configure] Failed == old(Failed) && Refreshed == old(Refreshed) && RanLen == old(RanLen) && RanAt == old(RanAt) && RanSrc == old(RanSrc)
+
+//@ func (*App).initiate
+//@ property C09 C13
+//@ requires [app] s != nil
+//@ assigns everything
+//@ ensures [wiring-only] Failed == old(Failed) && Refreshed == old(Refreshed) && RanLen == old(RanLen) && RanAt == old(RanAt) && RanSrc == old(RanSrc)
+//@ let app = s
+//@ ensures [wired-or-error] implies(result == nil, s.Configure != nil && s.Factory != nil)
+//@ loop 1 invariant [wiring-only] Failed == old(Failed) && Refreshed == old(Refreshed) && RanLen == old(RanLen) && RanAt == old(RanAt) && RanSrc == old(RanSrc) && app.Configure != nil && app.Factory != nil && app.registry != nil
+
+// Run: a start-up failure anywhere (ghost Failed) makes Run return an error, and no runner is invoked unless the
+// refresh phase succeeded. A-FATAL: logger.Fatalf after a failed initiate() does not return (modelled by the
+// assumption that initiate succeeded when control continues).
+//@ func (*App).Run
+//@ property C09 C13
+//@ requires [clean-start] s != nil && !Failed && !Refreshed
+//@ assigns everything
+//@ ensures [run-reports-failure] implies(Failed, result != nil)
+//@ ensures [no-runner-unless-refreshed] implies(!Refreshed, RanLen == old(RanLen))
+//@ ensures [success-means-all-runners-ran] implies(result == nil, Refreshed && !Failed)
+//@ assume before call (*github.com/go-kid/ioc/app.App).run: [fatal-does-not-return] err == nil
+//@ loop 1 invariant [options-only-configure] !Failed && !Refreshed && RanLen == old(RanLen) && RanAt == old(RanAt) && RanSrc == old(RanSrc)
